@@ -1,8 +1,8 @@
-import vlib, props, semcheck
-from astlib import walk
-
-TITLE = {"C19": "for loops consume exactly what their iterators yield, lazily and in order",
-         "C03": "functions are pure: same arguments, same result, whatever happened before"}
+"""C19 -- runtime error reports point at the real failure.  CalcSem builds the abstract report of every raised error; the real
+report text (from the pipeline driven statement by statement, and from the real read-eval loop) is parsed and compared."""
+import json
+import vlib, props, semcheck, sess
+from astlib import *
 
 
 def run(tier, replay=None):
@@ -12,6 +12,35 @@ def run(tier, replay=None):
     fams = props.c19_families(tier, vlib.seed())
     vs = semcheck.run_families(ck, fams, props.c19_nontrivial)
     semcheck.binding_selftest(ck, vs)
+    # ---- the same reports as the read-eval loop prints them (node.Loop in process): functions defined in one statement -- by plain
+    # assignment, as array elements, as call arguments, inside top-level if / for / while blocks -- fail in a later one
+    div = assign("dv", fn(["a", "b"], bin_("/", N("a"), N("b"))))
+    defs = {
+        "plain": [assign("brk", fn(["x"], call("dv", N("x"), I(0))))],
+        "array element": [assign("ops", lst([fn(["x"], call("dv", N("x"), I(0))), fn(["x"], N("x"))])), assign("brk", ix1(N("ops"), I(0)))],
+        "call argument": [assign("twice", fn(["f"], fn(["x"], call("f", call("f", N("x")))))), assign("brk", call("twice", fn(["x"], call("dv", N("x"), I(0)))))],
+        "inside a top-level if block": [iff(Bo(True), block([assign("brk", fn(["x"], call("dv", N("x"), I(0)))), I(0)]))],
+        "inside a top-level for": [fr(["i"], [call("fromto", I(0), I(1))], assign("brk", fn(["x"], call("dv", bin_("+", N("x"), N("i")), I(0)))))],
+        "returned by a function": [assign("mkb", fn(["z"], fn(["x"], call("dv", N("x"), N("z"))))), assign("brk", call("mkb", I(0)))],
+    }
+    uses = {"direct": call("brk", I(4)), "through apply": call("apply", N("brk"), I(5)), "in a loop": fr(["q"], [call("fromto", I(1), I(3))], call("brk", N("q"))),
+            "in a generator": fr(["q"], [call("gn")], N("q"))}
+    ls, lid = [], 0
+    for dname, dd in defs.items():
+        for uname, use in uses.items():
+            lid += 1
+            ls.append({"id": 9500000 + lid, "items": [div, assign("apply", fn(["f", "v"], call("f", N("v")))), assign("gn", fn([], block([y(I(1)), y(call("brk", I(7)))])))] + dd + [I(1), use, I(2), use],
+                       "stdin": [], "meta": {"defined": dname, "used": uname}})
+    if tier == "quick":
+        ls = [x for i, x in enumerate(ls) if (i + vlib.seed()) % 2 == 0 or x["meta"]["used"] == "direct"]
+    lv = sess.judge_via_loop(ls, cmp=("report",), ck=ck, part="reports printed by the real read-eval loop for functions defined in earlier statements")
+    for v in lv:
+        ck.cov["evaluations"] += 1
+        ck.cov["traces_validated_against_impl"] += 1
+        if v.status != "accept":
+            ck.violation("through the read-eval loop, function defined as %s, used %s: %s" % (v.session["meta"]["defined"], v.session["meta"]["used"], json.dumps(v.info)[:600]),
+                         {"session": v.session, "texts": v.texts, "via": "loop"})
+    ck.part("reports printed by the real read-eval loop for functions defined in earlier statements", sessions=len(lv), accepted=sum(1 for v in lv if v.status == "accept"))
     ck.cov["rule"] = props.c19_rule
     ck.assumptions += ["CalcSem.tla as evaluated by TLC is the oracle; Unspecified sessions are only checked for no-crash"]
     return ck.finish()
